@@ -57,6 +57,33 @@ impl Obs {
     pub fn viol(mut self, why: &str) -> Self { self.violation = Some(why.to_string()); self }
 }
 
+/// Watchdog: what is running now and since when.  A case that neither returns nor fails within
+/// `HANG_LIMIT_S` (a spin on a dead stream, say) is reported as a violation of its own and the
+/// process ends there; the remaining cases of this run are not executed.
+pub const HANG_LIMIT_S: u64 = 60;
+pub static WATCH: std::sync::Mutex<Option<(String, std::time::Instant)>> = std::sync::Mutex::new(None);
+static WATCH_DIR: std::sync::Mutex<Option<(String, u64)>> = std::sync::Mutex::new(None);
+
+/// announce the case about to run (first announcement wins until `watch_end`)
+pub fn watch_begin(desc: &str) { let mut w = WATCH.lock().unwrap(); if w.is_none() { *w = Some((desc.to_string(), std::time::Instant::now())); } }
+pub fn watch_end() { *WATCH.lock().unwrap() = None; }
+
+fn spawn_watchdog() {
+    std::thread::spawn(|| loop {
+        std::thread::sleep(std::time::Duration::from_millis(500));
+        let hung = { let w = WATCH.lock().unwrap(); match &*w { Some((d, t)) if t.elapsed().as_secs() >= HANG_LIMIT_S => Some(d.clone()), _ => None } };
+        if let Some(desc) = hung {
+            if let Some((dir, n)) = WATCH_DIR.lock().unwrap().clone() {
+                use std::io::Write as _;
+                if let Ok(mut f) = std::fs::OpenOptions::new().append(true).open(format!("{}/cases.txt", dir)) { let _ = writeln!(f, "{}", desc.replace('\t', " ").replace('\n', " ")); }
+                if let Ok(mut f) = std::fs::OpenOptions::new().append(true).open(format!("{}/impl.txt", dir)) { let _ = writeln!(f, "T\tV:the call neither returned nor failed within {} s (spin / hang)\thang", HANG_LIMIT_S); }
+                let _ = std::fs::write(format!("{}/stats.json", dir), format!("{{\"cases\":{},\"tags\":{{\"hang\":1}}}}", n + 1));
+            }
+            std::process::exit(0);
+        }
+    });
+}
+
 pub struct Emitter {
     cases: BufWriter<File>,
     imp: BufWriter<File>,
@@ -73,6 +100,8 @@ pub struct Emitter {
 impl Emitter {
     pub fn new(dir: &str) -> Self {
         std::fs::create_dir_all(dir).unwrap();
+        *WATCH_DIR.lock().unwrap() = Some((dir.to_string(), 0));
+        spawn_watchdog();
         Emitter {
             cases: BufWriter::new(File::create(format!("{}/cases.txt", dir)).unwrap()),
             imp: BufWriter::new(File::create(format!("{}/impl.txt", dir)).unwrap()),
@@ -85,8 +114,13 @@ impl Emitter {
     }
     /// record one case. `line` must not contain tabs or newlines.
     pub fn case<F: FnOnce() -> Obs>(&mut self, line: &str, f: F) {
+        // the files on disk are complete up to the previous case, so that the watchdog can append
+        self.cases.flush().unwrap(); self.imp.flush().unwrap();
+        if let Some(w) = WATCH_DIR.lock().unwrap().as_mut() { w.1 = self.n; }
+        watch_begin(line);
         crate::alloc_count::reset();
         let r = catch_unwind(AssertUnwindSafe(f));
+        watch_end();
         let peak = crate::alloc_count::max();
         let mut obs = match r {
             Ok(o) => o,
